@@ -68,8 +68,9 @@ def _masked_getitem(interp, base, key):
                 ctx.assume(forall(t, implies(AND(t >= 0, t < m.t), AND(C(t) >= 0, C(t) < n, lift(kf(C(t))), D(C(t)) == t)), patterns=[C(t)]))
                 ctx.assume(forall([t, u], implies(AND(t >= 0, t < u, u < m.t), C(t) < C(u))))
                 ctx.assume(forall(i, implies(AND(i >= 0, i < n, lift(kf(i))), AND(D(i) >= 0, D(i) < m.t, C(D(i)) == i)), patterns=[D(i)]))
-                cache[id(key)] = (m, C, key)
-            m, C, _ = cache[id(key)]
+                cache[id(key)] = (m, C, key, D)
+                ctx.ghost.setdefault("compress_order", []).append((m, C, key, D))
+            m, C = cache[id(key)][0], cache[id(key)][1]
             bf = base.fn
             r = SymArr((m,), lambda t: bf(C(lift(t))), base.kind)
             r.as_type = getattr(base, "as_type", None) or __import__("torch").Tensor
@@ -451,10 +452,84 @@ def be_ensures(s):
     a, b = lift(i1.fn(j)), lift(i2.fn(j))
     rm = V.rowmajor((H, W))
     pf = lambda v: lift(s.phi.fn(rm.unr[0](v), rm.unr[1](v)))
-    return [("same-length", AND(lift(i2.sym_len()) == E, lift(inc.sym_len()) == E)),
-            ("endpoints-in-range", forall(j, implies(inj, AND(a >= 0, a < N, b >= 0, b < N)))),
-            ("edges-are-adjacent-valid-pairs", forall(j, implies(inj, ADJ(a, b)))),
-            ("inc=find_wrap(phi[i1],phi[i2])-of-the-GIVEN-phase", forall(j, implies(inj, lift(inc.fn(j)) == fw_spec(pf(a), pf(b)))))]
+    out = [("same-length", AND(lift(i2.sym_len()) == E, lift(inc.sym_len()) == E)),
+           ("endpoints-in-range", forall(j, implies(inj, AND(a >= 0, a < N, b >= 0, b < N)))),
+           ("edges-are-adjacent-valid-pairs", forall(j, implies(inj, ADJ(a, b)))),
+           ("inc=find_wrap(phi[i1],phi[i2])-of-the-GIVEN-phase", forall(j, implies(inj, lift(inc.fn(j)) == fw_spec(pf(a), pf(b)))))]
+    # COMPLETENESS of the edge set: every (right / down) neighbour pair of valid pixels occurs as an edge.
+    p, q = I("p"), I("q")
+    inpq = AND(p >= 0, p < N, q >= 0, q < N)
+    mf = None if s.mask is None else (lambda v: lift(s.mask.fn(rm.unr[0](v), rm.unr[1](v))))
+    if s.mode == "verify":
+        for kind in ("right", "down"):
+            # explicit witnesses: the rows where a straightforward implementation can have put that (undirected) edge -
+            # either block of torch.cat, keyed by either endpoint - so that harmless reorderings still verify
+            hyp = AND(inpq, _directed_adj_kind(kind, p, q, H, W, s.wrap_around, mf))
+            cands = []
+            for jw in _edge_witnesses(s, kind, p, q):
+                cands.append(AND(jw >= 0, jw < E, OR(AND(lift(i1.fn(jw)) == p, lift(i2.fn(jw)) == q),
+                                                     AND(lift(i1.fn(jw)) == q, lift(i2.fn(jw)) == p))))
+            out.append((f"edge-set-complete:{kind}-neighbour-pair-is-an-edge", forall([p, q], implies(hyp, OR(*cands)))))
+    else:
+        J = z3.Function(s.ctx.fresh_name("edge_of"), z3.IntSort(), z3.IntSort(), z3.IntSort())
+        jj = J(p, q)
+        out.append(("edge-set-complete", forall([p, q], implies(AND(inpq, ADJ(p, q)), AND(jj >= 0, jj < E,
+                    OR(AND(lift(i1.fn(jj)) == p, lift(i2.fn(jj)) == q), AND(lift(i1.fn(jj)) == q, lift(i2.fn(jj)) == p)))),
+                    patterns=[ADJ(p, q)])))
+    return out
+
+
+def _directed_adj_kind(kind, p, q, H, W, wrap, maskfn):
+    rm = V.rowmajor((H, W))
+    Hh, Ww = lift(H), lift(W)
+    r, c = rm.unr[0](p), rm.unr[1](p)
+    w = lift(wrap)
+    wrapc = lambda t, n: z3.If(t + 1 >= n, t + 1 - n, t + 1)
+    if kind == "right":
+        geo = z3.If(w, q == rm.lin(r, wrapc(c, Ww)), AND(c + 1 < Ww, q == rm.lin(r, c + 1)))
+    else:
+        geo = z3.If(w, q == rm.lin(wrapc(r, Hh), c), AND(r + 1 < Hh, q == rm.lin(r + 1, c)))
+    if maskfn is None:
+        return geo
+    return AND(geo, maskfn(p), maskfn(q))
+
+
+def _edge_witnesses(s, kind, p, q):
+    """Candidate rows of the returned tensors for the `kind` edge {p, q}, read off the ghosts of the library models the real
+    code went through: position in a source index vector -> boolean-mask selection (D) -> block offset in torch.cat ->
+    inverse of the argsort permutation (tau).  Candidates: either cat block, keyed by either endpoint."""
+    g = s.ctx.ghost
+    H, W = s.phi.shape
+    rm = V.rowmajor((H, W))
+    r, c = rm.unr[0](p), rm.unr[1](p)
+    wrap = lift(s.wrap_around)
+    is_wrap = z3.is_true(z3.simplify(wrap)) or s.ctx.entails(wrap)
+    if is_wrap:
+        ts = [p, q]
+    else:
+        shape = (H, S(W) - 1) if kind == "right" else (S(H) - 1, W)
+        ts = [V.rowmajor(shape).lin(r, c)]
+    comp = g.get("compress_order", [])
+    if not g.get("argsort"):
+        return []
+    SG, TAU, _ = g["argsort"][-1]
+    out = []
+    for blk in (0, 1):
+        for t in ts:
+            if s.mask is not None:
+                if len(comp) < 2:
+                    continue
+                first = lift(comp[0][0])
+                row = comp[blk][3](t)
+            else:
+                other = "down" if kind == "right" else "right"
+                size = lambda k: (lift(H) * lift(W)) if is_wrap else (lift(H) * (lift(W) - 1) if k == "right" else (lift(H) - 1) * lift(W))
+                first = size(kind) if blk == 1 and False else None
+                row = t
+                # block offset when this kind's edges come second: the size of the other kind's block
+                first = size(other)
+            out.append(TAU(row if blk == 0 else first + row))
+    return out
 
 
 def concrete_adj(p, q, H, W, wrap, maskfn):
@@ -544,6 +619,7 @@ def drv_ensures(s):
         ("shape", AND(lift(out.shape[0]) == H, lift(out.shape[1]) == W)),
         ("same-root=>out-phi_true-is-the-same-constant", forall([u, v], implies(AND(inr(u), inr(v), g.R(u) == g.R(v)), of(u) - phit(u) == of(v) - phit(v)))),
         ("every-edge-is-merged", forall(j, implies(AND(j >= 0, j < lift(i1.sym_len())), g.R(lift(i1.fn(j))) == g.R(lift(i2.fn(j)))))),
+        ("adjacent-valid-pixels-share-a-root", forall([u, v], implies(AND(inr(u), inr(v), ADJ(u, v)), g.R(u) == g.R(v)))),
         # "one constant": the residual is the same for every pair of pixels (witness-free form of `exists c`)
         ("out-input-in-2pi*Z+one-constant", forall([u, v], implies(AND(inr(u), inr(v)),
             of(u) - psi_flat(s, u) - 2 * PI * z3.ToReal(g.Pi(u)) == of(v) - psi_flat(s, v) - 2 * PI * z3.ToReal(g.Pi(v))))),
@@ -712,9 +788,10 @@ TRUSTED = [
     "pyvc engine, z3, cvc5",
 ]
 ASSUMPTIONS = ["A1 floats are reals", "A2 int64/float32 index stacking in _build_edges exact below 2^24 pixels (not proved)",
-               "_build_edges: soundness of the produced edges (in range, 4-neighbours, both valid, increment of the GIVEN phase) is proved; "
-               "COMPLETENESS of the edge set (every neighbour pair present - needed for 'one constant per connected region') is only "
-               "covered by the bounded oracle on small grids",
+               "_build_edges: soundness (in range, 4-neighbours, both valid, increment of the GIVEN phase) AND completeness (every right/down "
+               "neighbour pair of valid pixels occurs as an edge, by explicit witnesses through the mask-selection and argsort ghosts) are proved "
+               "from the real source; the driver then proves 'adjacent valid pixels share a root'; what remains trusted is path induction from "
+               "adjacency to connected regions",
                "_pixel_reliability only orders the edges (result independent of it); its values are not specified",
                "values.RowMajor axioms (row-major bijection for symbolic H x W) are theorems of integer division, assumed",
                "boolean-mask indexing x[m] (1-d) = order-preserving enumeration of the true positions, shared selection map per mask object; argsort = bijection (trusted torch contracts)"]
